@@ -5,6 +5,8 @@ import (
 	"fmt"
 	"io"
 	"log/slog"
+	"os"
+	"path/filepath"
 	"strconv"
 	"strings"
 	"sync"
@@ -17,8 +19,10 @@ import (
 	"reduction.dev/reduction/batching"
 	"reduction.dev/reduction/connectors"
 	"reduction.dev/reduction/connectors/embedded"
+	"reduction.dev/reduction/partitioning"
 	"reduction.dev/reduction/proto"
 	"reduction.dev/reduction/proto/jobpb"
+	"reduction.dev/reduction/proto/snapshotpb"
 	"reduction.dev/reduction/proto/workerpb"
 	"reduction.dev/reduction/workers/operator"
 	"reduction.dev/reduction/workers/sourcerunner"
@@ -84,12 +88,15 @@ type c11Cmd struct {
 // c11Reader is the scripted source: ReadEvents blocks until the harness hands it the next read.
 type c11Reader struct {
 	connectors.UnimplementedSourceReader
-	cmd chan c11Cmd
+	cmd    chan c11Cmd
+	parked atomic.Bool // the event loop is inside ReadEvents, waiting for the harness
 }
 
 func (r *c11Reader) AssignSplits([]*workerpb.SourceSplit) error { return nil }
 func (r *c11Reader) ReadEvents() ([][]byte, error) {
+	r.parked.Store(true)
 	c, ok := <-r.cmd
+	r.parked.Store(false)
 	if !ok {
 		return nil, connectors.ErrEndOfInput
 	}
@@ -109,7 +116,11 @@ func (c11Keyer) KeyEventBatch(ctx context.Context, events [][]byte) ([][]*handle
 			continue
 		}
 		for _, t := range strings.Split(string(e), "+") {
-			out[i] = append(out[i], &handlerpb.KeyedEvent{Key: []byte("k"), Timestamp: timestamppb.New(timeOfNs(t))})
+			key := []byte("k")
+			if j := strings.IndexByte(t, ':'); j >= 0 {
+				key, t = lib.UnHex(t[j+1:]), t[:j]
+			}
+			out[i] = append(out[i], &handlerpb.KeyedEvent{Key: key, Timestamp: timestamppb.New(timeOfNs(t))})
 		}
 	}
 	return out, nil
@@ -149,51 +160,102 @@ func (o *c11LoopSink) count() int {
 
 type c11Item struct {
 	raw   bool
-	keyed int
+	keyed []int // operator index of each keyed event of a raw event
 }
 
 type c11Loop struct {
 	sr      *sourcerunner.SourceRunner
 	reader  *c11Reader
 	ticks   chan time.Time
-	sink    *c11LoopSink
+	sinks   []*c11LoopSink
 	done    chan error
-	n       int
+	n, k    int
+	ks      *partitioning.KeySpace
 	items   []c11Item
-	shown   int
+	shown   []int
+	depBase []int // per operator: items received before the current deployment
 	failure string
 }
 
-func newC11Loop(n int) *c11Loop {
+// deployRunner calls the real HandleDeploy (the first or a further time on the same runner), replaces the 200ms
+// ticker it creates by the harness's tick channel before it can have fired, and wakes the new event loop.
+func (l *c11Loop) deployRunner() (fresh bool) {
+	l.reader = &c11Reader{cmd: make(chan c11Cmd)}
+	ops := make([]*jobpb.NodeIdentity, l.k)
+	for i := range ops {
+		ops[i] = &jobpb.NodeIdentity{Id: fmt.Sprintf("op%d", i), Host: "h"}
+	}
+	t0 := time.Now()
+	if err := l.sr.HandleDeploy(context.Background(), &workerpb.DeploySourceRunnerRequest{
+		Sources: []*jobconfigpb.Source{{}}, Operators: ops, KeyGroupCount: 8,
+	}); err != nil {
+		l.failure = "deploy-error"
+		return true
+	}
+	l.sr.VerifSetWatermarkTicks(l.ticks)
+	fresh = time.Since(t0) < 120*time.Millisecond
+	if err := l.sr.HandleAssignSplits([]*workerpb.SourceSplit{{}}); err != nil {
+		l.failure = "assign-error"
+	}
+	return fresh
+}
+
+func newC11Loop(n, k int) *c11Loop {
+	k = max(k, 1)
 	for attempt := 0; ; attempt++ {
-		l := &c11Loop{reader: &c11Reader{cmd: make(chan c11Cmd)}, ticks: make(chan time.Time), sink: &c11LoopSink{}, done: make(chan error, 1), n: max(n, 1)}
+		l := &c11Loop{ticks: make(chan time.Time), done: make(chan error, 1), n: max(n, 1), k: k,
+			ks: partitioning.NewKeySpace(8, k), shown: make([]int, k), depBase: make([]int, k)}
+		for i := 0; i < k; i++ {
+			l.sinks = append(l.sinks, &c11LoopSink{})
+		}
 		l.sr = sourcerunner.New(sourcerunner.NewParams{
 			Host: "sr", UserHandler: c11Keyer{}, Job: c11LoopJob{},
-			OperatorFactory:     func(string, *jobpb.NodeIdentity) proto.Operator { return l.sink },
+			OperatorFactory: func(_ string, node *jobpb.NodeIdentity) proto.Operator {
+				i, _ := strconv.Atoi(strings.TrimPrefix(node.Id, "op"))
+				return l.sinks[i]
+			},
 			SourceReaderFactory: func(*jobconfigpb.Source) connectors.SourceReader { return l.reader },
 			EventBatching:       batching.EventBatcherParams{MaxSize: n}, // no MaxDelay: whole batches only
 		})
 		go func() { l.done <- l.sr.Start(context.Background()) }()
-		t0 := time.Now()
-		err := l.sr.HandleDeploy(context.Background(), &workerpb.DeploySourceRunnerRequest{
-			Sources: []*jobconfigpb.Source{{}}, Operators: []*jobpb.NodeIdentity{{Id: "op1", Host: "h"}}, KeyGroupCount: 8,
-		})
-		if err != nil {
-			l.failure = "deploy-error"
-			return l
-		}
-		// the 200ms ticker created by HandleDeploy is replaced before it can have fired
-		l.sr.VerifSetWatermarkTicks(l.ticks)
-		fresh := time.Since(t0) < 120*time.Millisecond
-		if err := l.sr.HandleAssignSplits([]*workerpb.SourceSplit{{}}); err != nil {
-			l.failure = "assign-error"
-			return l
-		}
-		if fresh || attempt >= 3 {
+		fresh := l.deployRunner()
+		if fresh || l.failure != "" || attempt >= 3 {
 			return l
 		}
 		l.close()
 	}
+}
+
+// redeploy: HandleDeploy a second time on the same SourceRunner. The runner keeps its watermarker; the new operator
+// cluster starts with empty batchers. The previous deployment's event loop is left parked inside its reader (the
+// code does not stop it: finding D39 of C01), which is why such cases use batches of 1 and drain after every step:
+// with one placeholder in flight it does not matter which of the two send goroutines forwards it.
+func (l *c11Loop) redeploy() string {
+	if l.failure != "" {
+		return l.failure
+	}
+	deadline := time.Now().Add(10 * time.Second)
+	for !l.reader.parked.Load() {
+		if time.Now().After(deadline) {
+			l.failure = "timeout"
+			return "timeout"
+		}
+		time.Sleep(100 * time.Microsecond)
+	}
+	for attempt := 0; ; attempt++ {
+		if l.deployRunner() || l.failure != "" || attempt >= 3 {
+			break
+		}
+	}
+	if l.failure != "" {
+		return l.failure
+	}
+	l.items = nil
+	for j, s := range l.sinks {
+		l.shown[j] = s.count()
+		l.depBase[j] = l.shown[j]
+	}
+	return "ok"
 }
 
 func (l *c11Loop) close() {
@@ -212,11 +274,17 @@ func (l *c11Loop) read(raws []string) string {
 	evs := make([][]byte, len(raws))
 	for i, r := range raws {
 		evs[i] = []byte(r)
-		k := 0
+		it := c11Item{raw: true}
 		if r != "-" {
-			k = strings.Count(r, "+") + 1
+			for _, t := range strings.Split(r, "+") {
+				key := []byte("k")
+				if j := strings.IndexByte(t, ':'); j >= 0 {
+					key = lib.UnHex(t[j+1:])
+				}
+				it.keyed = append(it.keyed, l.ks.RangeIndex(key))
+			}
 		}
-		l.items = append(l.items, c11Item{raw: true, keyed: k})
+		l.items = append(l.items, it)
 	}
 	select {
 	case l.reader.cmd <- c11Cmd{events: evs}:
@@ -246,9 +314,10 @@ func (l *c11Loop) tick() string {
 	}
 }
 
-// expected number of items at the operator: placeholders are sent in order, a keyed placeholder once its key-event
-// batch of n raw events is complete, and the operator batcher delivers whole batches of n (only tells how long to wait)
-func (l *c11Loop) expected() int {
+// expected number of items at operator j in this deployment: placeholders are sent in order, a keyed placeholder once
+// its key-event batch of n raw events is complete, and each operator's batcher delivers whole batches of n
+// (only tells how long to wait)
+func (l *c11Loop) expected(j int) int {
 	raws := 0
 	for _, it := range l.items {
 		if it.raw {
@@ -263,7 +332,11 @@ func (l *c11Loop) expected() int {
 				break
 			}
 			seen++
-			items += it.keyed
+			for _, d := range it.keyed {
+				if d == j {
+					items++
+				}
+			}
 		} else {
 			items++
 		}
@@ -275,23 +348,29 @@ func (l *c11Loop) drain() string {
 	if l.failure != "" {
 		return l.failure
 	}
-	want := l.expected()
 	deadline := time.Now().Add(10 * time.Second)
-	for l.sink.count() < want {
-		if time.Now().After(deadline) {
-			break
+	for j, s := range l.sinks {
+		for s.count()-l.depBase[j] < l.expected(j) {
+			if time.Now().After(deadline) {
+				break
+			}
+			time.Sleep(200 * time.Microsecond)
 		}
-		time.Sleep(200 * time.Microsecond)
 	}
 	time.Sleep(2 * time.Millisecond) // anything delivered beyond the expectation shows up too
-	l.sink.mu.Lock()
-	defer l.sink.mu.Unlock()
-	out := append([]string(nil), l.sink.seen[min(l.shown, len(l.sink.seen)):]...)
-	l.shown = len(l.sink.seen)
-	if len(out) == 0 {
-		return "-"
+	parts := make([]string, l.k)
+	for j, s := range l.sinks {
+		s.mu.Lock()
+		out := append([]string(nil), s.seen[min(l.shown[j], len(s.seen)):]...)
+		l.shown[j] = len(s.seen)
+		s.mu.Unlock()
+		if len(out) == 0 {
+			parts[j] = "-"
+		} else {
+			parts[j] = strings.Join(out, ",")
+		}
 	}
-	return strings.Join(out, ",")
+	return strings.Join(parts, " | ")
 }
 
 var c11Seq atomic.Int64
@@ -317,79 +396,43 @@ func (o *c11Sink) HandleEventBatch(ctx context.Context, batch []*workerpb.Event)
 func (o *c11Sink) ID() string { return "sink" }
 
 type c11Env struct {
-	loop    *c11Loop
-	sender  *sourcerunner.VerifSender
-	sink    *c11Sink
-	w       *wmark.Watermarker
-	op      *operator.Operator
-	h       *c11Handler
-	done    chan error
-	started bool
-	hdr     []string
-	opID    string
-	deploys int
+	loop         *c11Loop
+	sender       *sourcerunner.VerifSender
+	sink         *c11Sink
+	w            *wmark.Watermarker
+	op           *operator.Operator
+	h            *c11Handler
+	done         chan error
+	started      bool
+	hdr          []string
+	opID         string
+	deploys      int
+	job          *workerstest.DummyJob
+	location     string
+	onDisk       bool
+	tmp          string
+	ckptID       uint64
+	ckpt         *snapshotpb.OperatorCheckpoint
+	ckptLocation string
 }
 
-func (e *c11Env) startOperator() string {
-	if e.started {
-		return ""
-	}
-	e.started = true
-	maxBatch, _ := strconv.Atoi(e.hdr[3])
-	runners, _ := strconv.Atoi(e.hdr[4])
-	kgc, _ := strconv.Atoi(e.hdr[5])
-	id := fmt.Sprintf("c11op%d", c11Seq.Add(1))
-	e.opID = id
-	e.h = &c11Handler{}
-	e.op = operator.NewOperator(operator.NewOperatorParams{
-		ID: id, UserHandler: e.h, Job: &workerstest.DummyJob{},
-		EventBatching: batching.EventBatcherParams{MaxSize: maxBatch}, // MaxDelay 0: batches are flushed only when full
-	})
-	e.done = make(chan error, 1)
-	go func() { e.done <- e.op.Start(context.Background()) }()
-	ids := make([]string, runners)
-	for i := range ids {
-		ids[i] = fmt.Sprintf("sr%d", i)
-	}
-	err := e.op.HandleDeploy(context.Background(), &workerpb.DeployOperatorRequest{
-		Operators:       []*jobpb.NodeIdentity{{Id: id, Host: "h"}},
-		SourceRunnerIds: ids,
-		KeyGroupCount:   int32(kgc),
-		StorageLocation: "memory:///c11",
-	}, &embedded.RecordingSink{})
-	if err != nil {
-		return "deploy-error"
-	}
-	deadline := time.Now().Add(10 * time.Second)
-	for !e.op.VerifReady() {
-		if time.Now().After(deadline) {
-			return "not-ready"
-		}
-		time.Sleep(time.Millisecond)
-	}
-	return ""
-}
-
-// redeploy calls HandleDeploy again on the same Operator (as the job does after a failure or a rescale), with a
-// fresh storage location.
-func (e *c11Env) redeploy() string {
-	if s := e.startOperator(); s != "" {
-		return s
-	}
+// deploy calls the real HandleDeploy (first deployment, redeployment on fresh storage, or recovery from the last
+// checkpoint in the storage it was taken in), then gives the operator the timer cache size of the case header.
+func (e *c11Env) deploy(location string, ckpts []*snapshotpb.OperatorCheckpoint) string {
 	runners, _ := strconv.Atoi(e.hdr[4])
 	kgc, _ := strconv.Atoi(e.hdr[5])
 	ids := make([]string, runners)
 	for i := range ids {
 		ids[i] = fmt.Sprintf("sr%d", i)
 	}
-	e.deploys++
 	errc := make(chan error, 1)
 	go func() {
 		errc <- e.op.HandleDeploy(context.Background(), &workerpb.DeployOperatorRequest{
 			Operators:       []*jobpb.NodeIdentity{{Id: e.opID, Host: "h"}},
 			SourceRunnerIds: ids,
 			KeyGroupCount:   int32(kgc),
-			StorageLocation: fmt.Sprintf("memory:///c11-redeploy-%d", e.deploys),
+			StorageLocation: location,
+			Checkpoints:     ckpts,
 		}, &embedded.RecordingSink{})
 	}()
 	select {
@@ -400,6 +443,11 @@ func (e *c11Env) redeploy() string {
 	case <-time.After(10 * time.Second):
 		return "timeout"
 	}
+	if len(e.hdr) > 6 {
+		cache, _ := strconv.ParseUint(e.hdr[6], 10, 64)
+		e.op.VerifUseTimerCache(cache)
+	}
+	e.location = location
 	deadline := time.Now().Add(10 * time.Second)
 	for !e.op.VerifReady() {
 		if time.Now().After(deadline) {
@@ -408,6 +456,86 @@ func (e *c11Env) redeploy() string {
 		time.Sleep(time.Millisecond)
 	}
 	return "ok"
+}
+
+// newLocation: recovery needs storage that outlives the DB object (every "memory://" location is a new empty file
+// system), so cases that recover use a temporary directory.
+func (e *c11Env) newLocation() string {
+	e.deploys++
+	if !e.onDisk {
+		return fmt.Sprintf("memory:///c11-%d", e.deploys)
+	}
+	if e.tmp == "" {
+		dir, err := os.MkdirTemp("", "verif-c11-")
+		if err != nil {
+			panic(err)
+		}
+		e.tmp = dir
+	}
+	return filepath.Join(e.tmp, fmt.Sprintf("d%d", e.deploys))
+}
+
+func (e *c11Env) startOperator() string {
+	if e.started {
+		return ""
+	}
+	e.started = true
+	maxBatch, _ := strconv.Atoi(e.hdr[3])
+	id := fmt.Sprintf("c11op%d", c11Seq.Add(1))
+	e.opID = id
+	e.h = &c11Handler{}
+	e.job = &workerstest.DummyJob{}
+	e.op = operator.NewOperator(operator.NewOperatorParams{
+		ID: id, UserHandler: e.h, Job: e.job,
+		EventBatching: batching.EventBatcherParams{MaxSize: maxBatch}, // MaxDelay 0: batches are flushed only when full
+	})
+	e.done = make(chan error, 1)
+	go func() { e.done <- e.op.Start(context.Background()) }()
+	if s := e.deploy(e.newLocation(), nil); s != "ok" {
+		return s
+	}
+	return ""
+}
+
+// redeploy calls HandleDeploy again on the same Operator (as the job does after a failure or a rescale), with a
+// fresh storage location.
+func (e *c11Env) redeploy() string {
+	if s := e.startOperator(); s != "" {
+		return s
+	}
+	return e.deploy(e.newLocation(), nil)
+}
+
+// barrier sends the checkpoint barrier of every runner; with the last one the operator flushes its batch and
+// checkpoints its DB (the handle goes to the job).
+func (e *c11Env) barrier() string {
+	if s := e.startOperator(); s != "" {
+		return s
+	}
+	runners, _ := strconv.Atoi(e.hdr[4])
+	e.ckptID++
+	var last string
+	for i := 0; i < runners; i++ {
+		last = e.send(fmt.Sprintf("sr%d", i), &workerpb.Event{Event: &workerpb.Event_CheckpointBarrier{
+			CheckpointBarrier: &workerpb.CheckpointBarrier{CheckpointId: e.ckptID}}})
+		if i < runners-1 && !strings.HasSuffix(last, " -") {
+			return "early-flush " + last // nothing may reach the handler before the last barrier
+		}
+	}
+	if e.job.OperatorCheckpoint == nil || e.job.OperatorCheckpoint.CheckpointId != e.ckptID {
+		return "no-checkpoint " + last
+	}
+	e.ckpt, e.ckptLocation = e.job.OperatorCheckpoint, e.location
+	return last
+}
+
+// recover redeploys the operator from its last checkpoint, in the storage location the checkpoint was taken in.
+func (e *c11Env) recover() string {
+	if e.ckpt == nil {
+		return "nockpt"
+	}
+	e.deploys++
+	return e.deploy(e.ckptLocation, []*snapshotpb.OperatorCheckpoint{e.ckpt})
 }
 
 func (e *c11Env) send(sender string, ev *workerpb.Event) string {
@@ -450,12 +578,16 @@ func (e *c11Env) await(want int) ([]string, bool) {
 func (e *c11Env) theLoop() *c11Loop {
 	if e.loop == nil {
 		n, _ := strconv.Atoi(e.hdr[3])
-		e.loop = newC11Loop(n)
+		k, _ := strconv.Atoi(e.hdr[4])
+		e.loop = newC11Loop(n, k)
 	}
 	return e.loop
 }
 
 func (e *c11Env) close() {
+	if e.tmp != "" {
+		defer os.RemoveAll(e.tmp)
+	}
 	if e.loop != nil {
 		e.loop.close()
 	}
@@ -488,6 +620,8 @@ func (e *c11Env) step(op string) string {
 		return e.theLoop().tick()
 	case "ldrain":
 		return e.theLoop().drain()
+	case "ldeploy":
+		return e.theLoop().redeploy()
 	case "revs":
 		// a keyed-event placeholder resolved with this batch, sent through the real sendOperatorEvent
 		e.runner()
@@ -517,6 +651,10 @@ func (e *c11Env) step(op string) string {
 			Key: lib.UnHex(f[2]), Value: []byte(f[3]), Timestamp: timestamppb.New(time.Unix(0, 0))}}})
 	case "redeploy":
 		return e.redeploy()
+	case "barrier":
+		return e.barrier()
+	case "recover":
+		return e.recover()
 	case "complete":
 		return e.send("sr"+f[1], &workerpb.Event{Event: &workerpb.Event_SourceComplete{SourceComplete: &workerpb.SourceCompleteEvent{}}})
 	case "wm":
@@ -547,7 +685,12 @@ func c11Interleave(lists [][]string, cur []string, out *[][]string) {
 func c11OperatorCase(r *lib.Rng, hdr string) lib.Case {
 	runners := r.Range(1, 4)
 	maxBatch := r.Range(0, 4)
-	c := lib.Case{Header: fmt.Sprintf("%s 0 %d %d 1", hdr, maxBatch, runners), Tags: []string{"operator"}}
+	// timer cache of the operator: the fixed 1 GB of HandleDeploy, or (through the accessor) 0 bytes / 1-5 timer keys
+	cache := lib.Pick(r, []int{1 << 30, 1 << 30, 0, 13, 26, 30, 45, 70})
+	c := lib.Case{Header: fmt.Sprintf("%s 0 %d %d 1 %d", hdr, maxBatch, runners, cache), Tags: []string{"operator"}}
+	if cache < 100 {
+		c.Tags = append(c.Tags, "smallcache")
+	}
 	if runners > 1 {
 		c.Tags = append(c.Tags, "multi")
 	}
@@ -571,12 +714,26 @@ func c11OperatorCase(r *lib.Rng, hdr string) lib.Case {
 		}
 	}
 	reset()
+	haveCkpt := false
 	n := r.Range(8, 50)
 	keys := []string{"6b", "61", "6262", "00"}
 	for j := 0; j < n; j++ {
 		if r.Chance(1, 25) {
 			c.Ops = append(c.Ops, "redeploy")
 			tag("redeploy")
+			reset()
+			continue
+		}
+		// a checkpoint (barriers of all runners), and later possibly a recovery from it
+		if r.Chance(1, 14) {
+			c.Ops = append(c.Ops, "barrier")
+			haveCkpt = true
+			tag("barrier")
+			continue
+		}
+		if haveCkpt && r.Chance(1, 14) {
+			c.Ops = append(c.Ops, "recover")
+			tag("recover")
 			reset()
 			continue
 		}
@@ -623,6 +780,10 @@ func c11OperatorCase(r *lib.Rng, hdr string) lib.Case {
 // watermark keeps bounding the operator's watermark (timers 10..40 stay pending at composite 5, fire when ... never here).
 func c11CompletionCases(hdr string) []lib.Case {
 	return []lib.Case{
+		// recovery through the real Operator with a 2-entry timer cache: timers 1-3 fire, checkpoint, 4-5 fire, recover:
+		// 4 and 5 are pending again (6 still), 1-3 are not
+		{Header: hdr + " 0 2 2 1 26", Tags: []string{"recover", "barrier", "multi", "operator", "smallcache"},
+			Ops: []string{"keyed 0 6b 1,2,3,4,5,6", "keyed 0 61 -", "wm 0 3", "wm 1 3", "barrier", "wm 0 5", "wm 1 5", "keyed 0 61 -", "recover", "wm 0 4", "wm 1 4", "keyed 0 61 -", "wm 0 10", "wm 1 10", "keyed 0 61 -", "keyed 0 61 -"}},
 		{Header: hdr + " 0 1 2 1", Tags: []string{"complete", "multi", "operator"},
 			Ops: []string{"keyed 0 6b 10,20,30,40", "wm 0 5", "wm 1 25", "complete 0", "wm 1 35", "keyed 1 61 -", "wm 1 60", "keyed 1 61 -"}},
 		{Header: hdr + " 0 2 3 1", Tags: []string{"complete", "multi", "operator"},
@@ -635,6 +796,9 @@ func c11RunOperatorOps(hdr []string, ops []string) []string {
 	c11Quiet.Do(func() { slog.SetDefault(slog.New(slog.NewTextHandler(io.Discard, nil))) }) // the operator logs through the default logger
 	lat, _ := strconv.ParseInt(hdr[2], 10, 64)
 	e := &c11Env{w: wmark.VerifNewWatermarker(time.Duration(lat)), hdr: hdr}
+	for _, op := range ops {
+		e.onDisk = e.onDisk || op == "recover"
+	}
 	defer e.close()
 	out := make([]string, 0, len(ops))
 	for _, op := range ops {
@@ -650,8 +814,8 @@ func propC11() *lib.Prop {
 		Rule: "cases = (a) event-timestamp sequences (ordered or not, with ties, zero-time and large values) fed to the real Watermarker with CurrentWatermark sampled at arbitrary points; " +
 			"(b) keyed events (whose handler response registers timers) and watermark messages from 1-4 runners in scripted interleavings sent to a real Operator (one key group, in-memory DKV, batch sizes 1-4); compared: " +
 			"(a') the same sequences sent through the real SourceRunner.sendOperatorEvent (placeholders resolved with event batches, watermark placeholders stamped when sent) to a recording operator; " +
-			"(c) the runner's real event loop (Start, HandleDeploy, processEvents, the send goroutine, key-event fetcher and operator batching with batch sizes 1-5 and no batch delay) fed by a scripted source and harness-controlled watermark ticks: the stream the operator receives, every value read at delivery, against the delivered-stream model; " +
-			"source completions (SourceComplete of a runner while others go on) and redeployments of the same Operator (HandleDeploy again, fresh storage) at arbitrary points; " +
+			"(c) the runner's real event loop (Start, HandleDeploy — also a second time on the same runner, whose watermarker survives —, processEvents, the send goroutine, key-event fetcher and operator batching with batch sizes 1-5 and no batch delay, 1-3 operators with keyed events routed by key and watermarks broadcast) fed by a scripted source and harness-controlled watermark ticks: the stream each operator receives, every value read at delivery, against the delivered-stream model; " +
+			"checkpoints (barriers of all runners) and recovery of the same Operator from the last checkpoint on disk, timer caches of 0 bytes / 1-5 keys through the accessor VerifUseTimerCache, source completions (SourceComplete of a runner while others go on) and redeployments of the same Operator (HandleDeploy again, fresh storage) at arbitrary points; " +
 			"every ProcessEventBatchRequest (Watermark field, keyed and TimerExpired events in order) and the registry's composite after each message; non-trivial = at least 2 runners whose latest watermarks differ at some point and a timer fired, or an unordered timestamp sequence with at least one sample; " +
 			"fixed cases enumerate all interleavings of 2-3 runners x up to 2-3 messages",
 		NumCases: func(tier string) int {
@@ -690,6 +854,13 @@ func propC11() *lib.Prop {
 			cs = append(cs, lib.Case{Header: "M C11 0 1 2 1", Tags: []string{"redeploy", "multi"},
 				Ops: []string{"keyed 0 6b 50000000000,200000000000", "wm 0 100000000000", "wm 1 100000000000", "keyed 0 61 -", "redeploy", "keyed 0 61 -", "keyed 1 6b 7", "wm 0 5", "keyed 0 61 -", "wm 1 9", "keyed 0 61 -"}})
 			cs = append(cs, c11CompletionCases("M C11")...)
+			// two operators: keyed events are routed by key, every watermark goes to both (the same stamped message)
+			cs = append(cs, lib.Case{Header: "M C11 0 2 2 1", Tags: []string{"loop", "multiop"},
+				Ops: []string{"lread 10:6b 20:61", "ltick", "lread 100:62 -", "ltick", "ldrain", "ltick", "lread 7:00 300:6b", "ltick", "ldrain"}})
+			// the runner is deployed a second time: its watermarker keeps the old maximum (watermark 49 before any new
+			// event; an older replayed event does not lower it)
+			cs = append(cs, lib.Case{Header: "M C11 0 1 2 1", Tags: []string{"loop", "multiop", "runner-redeploy"},
+				Ops: []string{"lread 50:6b", "ldrain", "ltick", "ldrain", "ldeploy", "ltick", "ldrain", "lread 10:61", "ldrain", "ltick", "ldrain", "lread 60:6b", "ldrain", "ltick", "ldrain"}})
 			// before any watermark message the handler is told time.Time{}; a runner that saw no event reports below the epoch
 			cs = append(cs, lib.Case{Header: "M C11 0 2 2 1", Tags: []string{"initial"},
 				Ops: []string{"tick", "keyed 0 6b 5", "keyed 1 6b 0", "wm 0 10", "keyed 0 61 -", "wm 1 -62135596800000000001", "keyed 0 61 -", "keyed 0 61 -", "wm 1 7", "keyed 0 61 -"}})
@@ -699,11 +870,34 @@ func propC11() *lib.Prop {
 			if i%4 == 1 {
 				// (c) the runner's real event loop: reads, watermark ticks, batches of n, delivery observed at the operator
 				n := r.Range(1, 5)
-				c := lib.Case{Header: fmt.Sprintf("M C11 0 %d 1 1", n), Tags: []string{"loop"}}
+				k := lib.Pick(r, []int{1, 1, 2, 3})
+				// a second HandleDeploy on the same runner (its watermarker survives) only with batches of 1 and a
+				// drain after every step: the code leaves the old deployment's goroutines running (D39, C01)
+				redeploys := r.Chance(1, 4)
+				if redeploys {
+					n = 1
+				}
+				c := lib.Case{Header: fmt.Sprintf("M C11 0 %d %d 1", n, k), Tags: []string{"loop"}}
+				if k > 1 {
+					c.Tags = append(c.Tags, "multiop")
+				}
+				if redeploys {
+					c.Tags = append(c.Tags, "runner-redeploy")
+				}
+				lkeys := []string{"6b", "61", "62", "6162", "00", "ff01"}
 				scale := lib.Pick(r, []int64{1, 1000, 1_000_000_000})
 				cur := int64(r.Intn(10))
 				steps := r.Range(4, 25)
 				for j := 0; j < steps; j++ {
+					if redeploys && len(c.Ops) > 0 {
+						c.Ops = append(c.Ops, "ldrain")
+						if r.Chance(1, 6) {
+							c.Ops = append(c.Ops, "ldeploy")
+							if r.Chance(1, 2) {
+								cur = int64(r.Intn(10)) // the source replays older events after the redeployment
+							}
+						}
+					}
 					switch r.Intn(5) {
 					case 0, 1:
 						c.Ops = append(c.Ops, "ltick")
@@ -723,13 +917,13 @@ func propC11() *lib.Prop {
 								}
 								a := cur * scale
 								cur += int64(r.Intn(5))
-								op += fmt.Sprintf(" %d+%d", a, cur*scale)
+								op += fmt.Sprintf(" %d:%s+%d:%s", a, lib.Pick(r, lkeys), cur*scale, lib.Pick(r, lkeys))
 							default:
 								cur += int64(r.Intn(9)) - 2
 								if cur < 0 {
 									cur = 0
 								}
-								op += fmt.Sprintf(" %d", cur*scale)
+								op += fmt.Sprintf(" %d:%s", cur*scale, lib.Pick(r, lkeys))
 							}
 						}
 						c.Ops = append(c.Ops, op)
